@@ -93,6 +93,7 @@ def gen_spec(rng, ndim=None, cls=None, f128=False):
         v = gen_float(rng)
         if dtype == "float16": v = Fr(rng.randint(0, 2000), rng.choice([1, 2, 8, 64]))
         if dtype == "float32" and v > 10 ** 30: v = Fr(3, 2) * 10 ** 30
+        if dtype == "float128" and rng.random() < 0.4: return Fr(rng.randint(1, 10 ** 6), rng.choice([3, 7, 10, 1000003]))      # needs all 64 mantissa bits
         return _round(dtype, v) if dtype != "float128" else v
     freq = [val() for _ in range(size)]
     r = rng.random()
@@ -299,6 +300,8 @@ def build(spec):
     bs = [build_axis(a) for a in s["axes"]]
     shape = tuple(b.bin_count for b in bs)
     conv = (lambda x: int(x)) if dt.kind == "i" else (lambda x: sx.fl(x))
+    if dt == np.longdouble:
+        conv = lambda x: (np.longdouble(x.numerator) / np.longdouble(x.denominator)) if isinstance(x, Fr) else np.longdouble(sx.fl(x))
     freq = np.array([conv(x) for x in s["freq"]], dtype=dt).reshape(shape)
     err2 = np.array([conv(x) for x in s["err2"]], dtype=dt).reshape(shape)
     meta = uncanon(s["meta"])
@@ -380,7 +383,7 @@ def snapshot(h):
     md = {k: v for k, v in h.meta_data.items() if k != "axis_names"}
     def arr(a):
         a = np.asarray(a)
-        if a.dtype == np.longdouble: return [canon(float(x)) for x in a.ravel()]
+        if a.dtype == np.longdouble: return [(canon(float(x)) if not np.isfinite(x) else Fr(*x.as_integer_ratio())) for x in a.ravel()]
         return [canon(x) for x in a.ravel().tolist()]
     m = [["cls", type(h).__name__], ["axes", [snap_axis(b) for b in h._binnings]], ["dtype", C.dtype_name(h.dtype)],
          ["freq", arr(h.frequencies)], ["err2", arr(h.errors2)], ["missed", arr(h._missed)], ["missed_float", "T" if np.asarray(h._missed).dtype.kind == "f" else "F"],
@@ -392,7 +395,23 @@ def snapshot(h):
     else: p.append(["missed", canon(float(h.missed))])
     return [["m", m], ["p", p]]
 
+def _f128(d):
+    """float128 contents travel as decimal strings (JSON numbers are binary64): read them as numbers again"""
+    import numpy as np
+    def conv(x):
+        if isinstance(x, list): return [conv(y) for y in x]
+        if isinstance(x, str):
+            v = np.longdouble(x)
+            return float(v) if not np.isfinite(v) else Fr(*v.as_integer_ratio())
+        return x
+    if isinstance(d, dict) and d.get("dtype") == "float128":
+        d = dict(d)
+        for k in ("frequencies", "errors2", "missed"):
+            if k in d: d[k] = conv(d[k])
+    return d
+
 def _strip(d):
+    d = _f128(d)
     d = dict(d); d.pop("physt_version", None); d.pop("physt_compatible", None)
     if "histograms" in d: d["histograms"] = [_strip(x) for x in d["histograms"]]
     return d
@@ -479,12 +498,7 @@ def corr_view(case, obs):
     return obs
 
 def classify(case, obs, model, verdict, corr, detail=""):
-    d = sx.rec(case)
-    if d["kind"] == "hist":
-        o = _rec(obs)
-        dt = _rec(_rec(o.get("before", []))["m"])["dtype"] if "before" in o else "?"
-        if dt == "float128" and o.get("error") == "to_json:TypeError": return "F27"
-    return None
+    return None      # F27 (float128 could not be serialised) was repaired in /repo: a return of it is a violation again
 
 def nontrivial(case, obs):
     d = sx.rec(case)
